@@ -93,6 +93,10 @@ def body_enc(ch, ctx):
     edge_ws = v != v.strip()
     f = Feature(attributes={k: list(x) for k, x in mapping.items()}, dialect=D, extra=list(extras), **COLS)
     text = str(f)
+    again = str(f)
+    ctx.check(again == text and hash(f) == hash(f), "printing-twice-differs", sig, mapping=mapping, first=text, second=again)
+    ctx.check({k: list(x) for k, x in G.as_plain(f.attributes).items()} == {k: list(x) for k, x in mapping.items()},
+              "printing-modified-attributes", sig, mapping=mapping, after=dict(G.as_plain(f.attributes)))
     if not ctx.check("\n" not in text and "\r" not in text, "printed-text-not-one-line", sig, mapping=mapping, text=text):
         return
     cols = text.split("\t")
